@@ -483,6 +483,66 @@ def run(res, tier, build_ok):
         else:
             continue
         break
+    # ---- the application keeps its own argument containers and edits them in place between two constructions (same
+    #      list objects, same lengths, other contents): the second command must be what those contents yield in a
+    #      process of its own — not what the containers held the first time
+    def lists_in(x, out):
+        if isinstance(x, dict):
+            for v_ in x.values():
+                lists_in(v_, out)
+        elif isinstance(x, list):
+            out.append(x)
+            for v_ in x:
+                lists_in(v_, out)
+        return out
+
+    def construct_with(v, pos, kw):
+        try:
+            inst = v[1](*pos, **kw)
+            return ("ok", bytes(inst.cdb), bytes(inst.dataout), len(inst.datain))
+        except Exception as e:
+            return ("raises", type(e).__name__)
+
+    def edit_in_place(pos, kw):
+        """same containers, same lengths, other contents: lists reversed, integers inside descriptors changed"""
+        changed = False
+        for l in lists_in({"p": list(pos[1:]), "k": kw}, [])[1:]:
+            if len(l) >= 2 and l[0] != l[-1]:
+                l.reverse()
+                changed = True
+            for d_ in l:
+                if isinstance(d_, dict):
+                    for k_, x_ in list(d_.items()):
+                        if isinstance(x_, int) and not isinstance(x_, bool) and x_ >= 2 and k_.endswith(("_length", "block_length", "key", "count")) \
+                                and "type" not in k_ and "code" not in k_:
+                            d_[k_] = x_ - 1
+                            changed = True
+        return changed
+    for i, v in enumerate(variants):
+        if solo[i][0] != "ok":
+            continue
+        pos = tuple(x if j == 0 else copy.deepcopy(x) for j, x in enumerate(v[2]))
+        kw = copy.deepcopy(v[3])
+        if not lists_in({"p": list(pos[1:]), "k": kw}, [])[1:]:
+            continue
+        # what the edited contents yield on their own
+        pos_b = tuple(x if j == 0 else copy.deepcopy(x) for j, x in enumerate(pos))
+        kw_b = copy.deepcopy(kw)
+        if not edit_in_place(pos_b, kw_b):
+            continue
+        solo_b = in_own_process((v[0], v[1], pos_b, kw_b))
+        res.case(("containers reused", v[0], i), None)
+        res.count("caller-owned containers edited in place between two constructions")
+        first = construct_with(v, pos, kw)
+        edit_in_place(pos, kw)
+        second = construct_with(v, pos, kw)
+        if first != solo[i] or second != solo_b:
+            which = "first" if first != solo[i] else "second"
+            res.violation("paramlist reused containers %s" % v[0].split("-rejected")[0],
+                          "%s built twice from the same argument containers, edited in place in between: the %s construction yields %s, the same contents in a process of their own %s" % (
+                              v[0], which, str(first if which == "first" else second)[:160], str(solo[i] if which == "first" else solo_b)[:160]),
+                          {"variant": v[0], "which": which, "got": str(first if which == "first" else second)[:600],
+                           "solo": str(solo[i] if which == "first" else solo_b)[:600]})
     # one preemption: thread 0 parked after i traced lines inside the list builders, thread 1 builds, thread 0 finishes
     files = ("scsi_cdb_persistentreserveout.py", "scsi_cdb_persistentreservein.py", "scsi_cdb_modesense6.py", "scsi_cdb_modesense10.py",
              "scsi_cdb_extended_copy_spc4.py", "scsi_cdb_extended_copy_spc5.py")
